@@ -464,6 +464,8 @@ theorem getFile_blocks {n : Nat} (hn : 0 < n) (pre : List Block) (name : Bytes) 
   apply readAll_correct hn _ _ _ hgood
   have h1 := contentOf_length_le i rest
   simp only [List.length_append] at hsl
+  have h2 : s.length + 1 ≤ (offsets.length + 1) * (s.length + 1) :=
+    Nat.le_mul_of_pos_left _ (by omega)
   omega
 
 /-- `get_hash`: the header at the recorded eof offset is the eof block -/
